@@ -304,6 +304,10 @@ class Agg:
         if r.foreign:
             key = r.foreign.split(" at op")[0]
             self.foreign[key] = self.foreign.get(key, 0) + 1
+        if r.world is not None and r.world.soft_foreign:
+            self.stats["oracle-failures-of-other-properties-seen"] = \
+                self.stats.get("oracle-failures-of-other-properties-seen",
+                               0) + r.world.soft_foreign
         if r.harness:
             if len(self.harness) < 5:
                 self.harness.append((seed, r.harness))
